@@ -82,6 +82,13 @@ CHECKS = {
          "(exact, prefix, case, trailing NUL, repeated, empty, 65535 bytes), user/password flag combinations, v3.1/v3.1.1/v5, Authentication Method/Data present, all four hash algorithms, absolute and relative password files, TCP and WebSocket listeners; "
          "accept/reject, account-operation effects, what a restarted broker loads, and inertness of packets before / after a failed CONNECT (service snapshots) are compared with the specification.",
     note="Two open known findings (valid credentials refused when an Authentication Method is present - allowed by MQTT 5; failing CONNACK occasionally lost). bcrypt cost is the plugin's fixed MinCost."),
+ "C12": dict(
+    level="model_checking", ref="DESIGN.md §4 C12",
+    technique="timed trace validation by TLC against Broker.tla (Lifetime, ExpiryOK, Dropped, Quiet with tolerance windows)",
+    text="Seeded timed scenarios: publisher interval {none,1,2,100,2^32-1} x configured message_expiry {0,1 s,2 s,2 h} x waiting {online, offline before / after the deadline, queued behind an unacknowledged message} x v3/v5; "
+         "every recorded event is validated by TLC: lifetime = interval capped by the configured maximum; no delivery after the deadline (reading tolerance 400 ms); an expired copy of an online session is dropped and reported (OnMsgDropped event); "
+         "the forwarded interval of a v5 subscriber is original - whole seconds waited (+-1 s), within [1, original], never absent.",
+    note="Real seconds; decisive instants >= 450 ms from deadlines; logging latency assumed < 400 ms. Retained replay excluded (fresh lifetime by design). States/transitions reported are those of the trace specification visited while explaining the traces."),
 }
 
 NOT_YET = {
